@@ -1361,11 +1361,15 @@ func driveC19(c *h.Ctx) error {
 		}
 		if cs.Kind == "late-registration" {
 			c19LateRegistration(c)
+			c19ClientDialThroughChain(c)
+			c19ServerDebugConcurrent(c)
 			return c.WriteCases("cases_C19.v", "", 0)
 		}
 		cases = append(cases, cs)
 	} else {
 		c19LateRegistration(c)
+		c19ClientDialThroughChain(c)
+		c19ServerDebugConcurrent(c)
 		maxLen := c.Pick(3, 4)
 		for _, kind := range []string{"client", "server", "item"} {
 			msgs := []int64{1}
